@@ -21,7 +21,7 @@ Definition pre_result : res (env * signal) := exec_block pre_fuel PLeaf [] pre_b
 Definition st_pre : state :=
   match pre_result with ROk _ s => s | RErr _ s => s | RFuel s => s | RUnsup _ s => s end.
 
-Lemma pre_runs : pre_result = ROk (PLeaf, SigNormal) st_pre.
+Lemma pre_runs : exec_block pre_fuel PLeaf [] pre_block (init_state Lua53) = ROk (PLeaf, SigNormal) st_pre.
 Proof. vm_compute. reflexivity. Qed.
 
 Definition nolabelb (b : block) : bool := forallb (fun s => negb (is_label s)) b.
